@@ -44,7 +44,7 @@ FANS = ("auto", "low", "medium", "high")
 
 def set_params(tier):
     ps = []
-    ids = ("ELEC7001",) + (IR.SPECIAL_SWING_IDS if tier == "thorough" else ("ELEC7022",))
+    ids = ("ELEC7001",) + (IR.SPECIAL_SWING_IDS[:2] if tier == "thorough" else ("ELEC7022",))
     msets = MODE_SETS if tier == "thorough" else MODE_SETS[:4]
     ranges = RANGES if tier == "thorough" else (RANGES[0], RANGES[2])
     for rid in ids:
